@@ -147,6 +147,21 @@ def run_cases(chk, tier):
                 check_dataset(chk, r, [path], path, dict(rep, geometry="pt"), boxes[:2], geometry="pt")
                 if k == 0:
                     chk.sample(dict(writer=writer, partitions=npart, rows=n), cap=4)
+        # a dataset written in several steps: to_parquet(append=True) adds partitions to the stored ones, and the recorded
+        # bounds are those of all of them, in stored order (D42)
+        for nfirst, nmore in (((2, 3),) if tier == "quick" else ((1, 1), (2, 3), (5, 7), (3, 2))):
+            df = make_frame(r, 4 * (nfirst + nmore + 2))
+            ddf = dd.from_pandas(df, npartitions=nfirst + nmore + 2)
+            path = os.path.join(tmp, f"ds_appended_{nfirst}_{nmore}.parq")
+            try:
+                ddf.partitions[:nfirst].to_parquet(path)
+                ddf.partitions[nfirst:nfirst + nmore].to_parquet(path, append=True, ignore_divisions=True)
+                ddf.partitions[nfirst + nmore:].to_parquet(path, append=True, ignore_divisions=True)
+            except Exception as e:  # noqa: BLE001
+                chk.violation(f"bounds/append-raises-{common.err_kind(e)}", dict(api="to_parquet(append=True)", error=repr(e)[:300])); continue
+            rep = dict(api="read_parquet_dask", writer="to_parquet", layout="appended", partitions=[nfirst, nmore, 2])
+            check_dataset(chk, r, [path], path, rep, [(0, 0, 10, 10), (-5, -5, 100, 100)])
+            check_dataset(chk, r, [path], path, dict(rep, geometry="pt"), [(0, 0, 10, 10)], geometry="pt")
         # frames derived from another frame before they are written: a boolean row filter keeps the partitions but not their extents,
         # so nothing the parent knows about its partitions may be recorded for the child (or the other way round)
         for variant in ("filter-of-read-frame", "parent-after-filtered-query", "column-selection-of-read-frame"):
